@@ -10,6 +10,7 @@ in Args::validate, which dominates everything else in main; the lazy detection l
 nor duplicates a detector for any block order.
 Not decided: clap's own parsing.
 """
+import os
 import re
 
 from engine.cfg import cfg_of
@@ -572,6 +573,8 @@ def check_worklist(ctx, out, dv, rule):
     E = ctx.expr(v)
     dets = [(bi, t) for bi, t in v.calls() if callee_matches(t, r"validators::ValidatorDetector::detect$") and bi in cfg.reachable]
     if not dets:
+        if os.environ.get("BW_DEBUG_MODEL"):
+            print("worklist: undecided at exit 1")
         return None
     # the per-block loop: the loop whose driving next() yields the block handed to detect
     hb = None
@@ -598,7 +601,10 @@ def check_worklist(ctx, out, dv, rule):
                 hb = H
                 break
     if hb is None:
+        if os.environ.get("BW_DEBUG_MODEL"):
+            print("worklist: undecided at exit 2")
         return None
+    hb_chain = {hb}
     for H, HB in loops.items():
         if H == hb or not (set(loops[hb]) < set(HB)):
             continue
@@ -606,16 +612,23 @@ def check_worklist(ctx, out, dv, rule):
         between = [H2 for H2, HB2 in loops.items() if H2 not in (hb, H) and set(loops[hb]) < set(HB2) and set(HB2) < set(HB)]
         if not own and not between:
             hb = H
+            hb_chain.add(hb)
             break
     if v.blocks[hb].get("lazy_inner"):
         # the block comes out of a lazily pulled flat_map: the iteration is the enclosing loop
         enc = sorted((len(HB), H) for H, HB in loops.items() if H != hb and set(loops[hb]) < set(HB))
         if enc:
             hb = enc[0][1]
+            hb_chain.add(hb)
     lblocks = set(loops[hb])
     if not all(bi in lblocks for bi, t in dets):
+        if os.environ.get("BW_DEBUG_MODEL"):
+            print("worklist: undecided at exit 3")
         return None
+    # the next() calls that advance the block iteration itself (not an inner loop over something else that
+    # happens to sit in the iteration - collecting a block's attribute names, say)
     drivers = {y for y in lblocks if v.blocks[y]["term"] and v.blocks[y]["term"]["k"] == "call" and callee_matches(v.blocks[y]["term"], r"Iterator>?::next$")
+               and (cfg.innermost_loop(y) in hb_chain or v.blocks[cfg.innermost_loop(y)].get("lazy_inner") if cfg.innermost_loop(y) is not None else True)
                and not re.search(r"ValidatorDetector", (v.blocks[y]["term"].get("arg_tys") or [""])[0] + v.local_ty((util.op_place(v.blocks[y]["term"]["args"][0]) or {"l": 0})["l"]))}
     DET_VEC = r"std::vec::Vec<std::boxed::Box<dyn blockwatch::validators::ValidatorDetector"
     pend = []
@@ -629,6 +642,8 @@ def check_worklist(ctx, out, dv, rule):
     used_in_loop = {pl0["l"] for bi, sp, pl0 in util.all_places(v) if bi in lblocks}
     pend = sorted(set(pend) & used_in_loop)
     if len(pend) != 1:
+        if os.environ.get("BW_DEBUG_MODEL"):
+            print("worklist: undecided at exit 4")
         return None
     pl = pend[0]
     vt = ctx.facts.adts.get("blockwatch::validators::ValidatorType")
@@ -654,6 +669,8 @@ def check_worklist(ctx, out, dv, rule):
                 d0 = w.deref_val(env, argv[0]) if argv else CW.TOP
                 if d0[0] != "sym" or d0[1] not in answers:
                     env[-3] = ("tuple", (CW.sym("?"),) + env.get(-3, ("tuple", ()))[1])
+                    if os.environ.get("BW_DEBUG_MODEL"):
+                        print("worklist: undecided at exit 5")
                     return None
                 env[-3] = ("tuple", env.get(-3, ("tuple", ()))[1] + (d0,))
                 if answers[d0[1]]:
@@ -682,14 +699,20 @@ def check_worklist(ctx, out, dv, rule):
         try:
             w.explore(hb, {pl: LM.lst([CW.sym(x) for x in D])}, stop)
         except CW.Limit:
+            if os.environ.get("BW_DEBUG_MODEL"):
+                print("worklist: undecided at exit 6")
             return None
         want_left = sorted(x for x in D if not answers[x])
         desc = ", ".join("%s: %s" % (x, "validator" if answers[x] else "nothing") for x in D)
         if not records:
+            if os.environ.get("BW_DEBUG_MODEL"):
+                print("worklist: no records for", answers)
             decided = False
             continue
         for kind, pv, asked in records:
             if pv[0] != "list" or any(i[0] != "sym" for i in pv[1]) or any(a[0] != "sym" or a[1] == "?" for a in asked[1]):
+                if os.environ.get("BW_DEBUG_MODEL"):
+                    print("worklist: undecided record", kind, pv, asked)
                 decided = False
                 continue
             got_left = sorted(i[1] for i in pv[1])
@@ -716,6 +739,8 @@ def check_worklist(ctx, out, dv, rule):
                 out.viol(rule, "%s|%s" % (rule, "not-restored" if lost else ("requeued-detected" if kept else "duplicated")), ctx.where(dv),
                          "detection loop on pending detectors [D1, D2, D3] (answers for one block - %s): afterwards the pending list is %s; %s" % (desc, got_left, "; ".join(what)))
     if not decided:
+        if os.environ.get("BW_DEBUG_MODEL"):
+            print("worklist: undecided at exit 7")
         return None
     return ok
 
@@ -1068,6 +1093,94 @@ def check_flags(ctx, out):
     out.inst("C14.flags", n, 16, ["-d/--disable->disabled_validators, -e/--enable->enabled_validators, -E/--extension->extensions, --ignore->ignore (Append, value parsers)"], exhaustive=True)
 
 
+def _rv_places(rv):
+    """places read by an rvalue"""
+    out = []
+    for key in ("op", "a", "b"):
+        o = rv.get(key)
+        if isinstance(o, dict):
+            p = o.get("c") or o.get("m")
+            if p:
+                out.append(p)
+    if isinstance(rv.get("place"), dict):
+        out.append(rv["place"])
+    for o in rv.get("ops", []) or []:
+        p = o.get("c") or o.get("m")
+        if p:
+            out.append(p)
+    return out
+
+
+def check_selection_readers(ctx, out, rule="C14.readers"):
+    """Non-interference of the selection: `-d` / `-e` decide which validators are created and nothing
+    else. (1) The two fields of `Args` are read only by `Args::validate` and by their two accessors;
+    (2) what the accessors return flows, in `main`, only into the detection call. A further reader - a
+    helper that answers "is validator X selected?" for main's use, say - lets the selection steer which
+    input is read or which files are parsed, so that `-d V` removes more than V's diagnostics."""
+    n = 0
+    FIELDS = ("disabled_validators", "enabled_validators")
+    allowed = re.compile(r"^blockwatch::flags::Args::(validate|disabled_validators|enabled_validators)(::\{closure#\d+\})*$")
+    for b in ctx.reachable_bodies():
+        if b.promoted is not None:
+            continue
+        fields = set()
+        for bi, j, s in b.assigns():
+            for pl in _rv_places(s["rv"]):
+                for e in pl["p"]:
+                    if isinstance(e, dict) and e.get("f") in FIELDS and "flags::Args" in (e.get("adt") or ""):
+                        fields.add(e["f"])
+        for bi, t in b.calls():
+            for a in t["args"]:
+                pl = util.op_place(a)
+                for e in (pl["p"] if pl else []):
+                    if isinstance(e, dict) and e.get("f") in FIELDS and "flags::Args" in (e.get("adt") or ""):
+                        fields.add(e["f"])
+        if not fields:
+            continue
+        if allowed.search(b.id):
+            n += 1
+        else:
+            out.viol(rule, "%s|field-reader|%s" % (rule, b.id), ctx.where(b),
+                     "`%s` reads the selection flag(s) %s: besides their validation and the two accessors nothing may look at them (the selection must not steer anything but which validators are created)" % (b.id, sorted(fields)))
+    main = ctx.main_view()
+    if main is not None:
+        S = {}
+        for bi, t in main.calls():
+            if callee_matches(t, r"flags::Args::(disabled_validators|enabled_validators)$") and not t["dest"]["p"]:
+                S[t["dest"]["l"]] = callee_name(t).split("::")[-1]
+        changed = True
+        while changed:
+            changed = False
+            for bi, j, s in main.assigns():
+                rv = s["rv"]
+                srcs = [pl["l"] for pl in _rv_places(rv)]
+                hit = [x for x in srcs if x in S]
+                if hit and not s["lhs"]["p"] and rv["k"] in ("ref", "rawptr", "use", "cast") and s["lhs"]["l"] not in S:
+                    S[s["lhs"]["l"]] = S[hit[0]]
+                    changed = True
+        for bi, j, s in main.assigns():
+            rv = s["rv"]
+            if rv["k"] in ("ref", "rawptr", "use", "cast"):
+                continue
+            if any(pl["l"] in S for pl in _rv_places(rv)):
+                out.viol(rule, "%s|used-in-main" % rule, ctx.where(main, s["span"]), "the selected-validator set is used in main for something other than the detection call")
+        for bi, t in main.calls():
+            used = [S[util.op_place(a)["l"]] for a in t["args"] if util.op_place(a) and util.op_place(a)["l"] in S]
+            if not used:
+                continue
+            if callee_matches(t, r"validators::detect_validators$"):
+                n += 1
+            elif callee_matches(t, r"ops::Deref>?::deref$|Borrow<.*>>?::borrow$|AsRef<.*>>?::as_ref$") and not t["dest"]["p"]:
+                S[t["dest"]["l"]] = used[0]
+            else:
+                out.viol(rule, "%s|passed-to|%s" % (rule, callee_name(t).split("::")[-1]), ctx.where(main, t["span"]),
+                         "the set returned by Args::%s is handed to `%s`: the selection may only reach the detection call" % (used[0], callee_name(t)))
+        for bi, t in main.terms():
+            if t["k"] == "switch" and util.op_place(t["op"]) and util.op_place(t["op"])["l"] in S:
+                out.viol(rule, "%s|branch-in-main" % rule, ctx.where(main, t.get("span")), "main branches on the selected-validator set")
+    out.inst(rule, n, 4, ["Args::validate + two accessors read the fields; main hands the sets to detect_validators only"])
+
+
 def run(ctx, out, tier):
     check_names(ctx, out)
     dv = detect_fn(ctx)
@@ -1080,6 +1193,7 @@ def run(ctx, out, tier):
     check_reject(ctx, out)
     check_flags(ctx, out)
     check_cli_shape(ctx, out, "C14.cli", {"disabled_validators": "option", "enabled_validators": "option"})
+    check_selection_readers(ctx, out)
     # the rejection of an unknown / conflicting selection reaches the exit status (no Result dropped
     # in main, the flag accessors and the validator driver), and each validator's diagnostics survive
     # the merge whichever other validators are selected
